@@ -142,6 +142,135 @@ where
             }
         }
     }
+    // ... and so must the other provided methods an adaptor may override
+    {
+        let jk = |k: &Key| json!([ctx.tags.ktag(k.serial), k.class(), k.ver]);
+        let seq_of = |what: &str, got: Option<Vec<Value>>, notes: &mut Vec<String>| {
+            if let Some(g) = got {
+                if g != via_clone {
+                    notes.push(format!("{what} hands out {g:?} but stepping yields {via_clone:?}"));
+                }
+            }
+        };
+        let mut notes: Vec<String> = vec![];
+        // (the same bookkeeping as `call`: allocations inside a non-panicking call count, a panic is recorded)
+        let flags = std::cell::Cell::new((false, false, 0u64));
+        let guarded = |f: &mut dyn FnMut() -> Vec<Value>| -> Option<Vec<Value>> {
+            ledger::arm();
+            let r = std::panic::catch_unwind(std::panic::AssertUnwindSafe(f));
+            let na = ledger::disarm();
+            let (p, i, a) = flags.get();
+            match r {
+                Ok(v) => {
+                    flags.set((p, i, a + na));
+                    Some(v)
+                }
+                Err(pl) => {
+                    flags.set((true, i || pl.is::<ledger::Injected>(), a));
+                    drop(pl);
+                    None
+                }
+            }
+        };
+        let c = it.clone();
+        seq_of(
+            "for_each()",
+            guarded(&mut || {
+                let mut out = vec![];
+                c.clone().for_each(|k| {
+                    let _s = ledger::Suspend::new();
+                    out.push(jk(k));
+                });
+                out
+            }),
+            &mut notes,
+        );
+        seq_of(
+            "collect()",
+            guarded(&mut || {
+                let v: crate::exec::Sink<&Key> = c.clone().collect();
+                let _s = ledger::Suspend::new();
+                v.0.iter().map(|k| jk(k)).collect()
+            }),
+            &mut notes,
+        );
+        seq_of(
+            "reduce()",
+            guarded(&mut || {
+                let mut out = vec![];
+                let last = c.clone().reduce(|a, b| {
+                    let _s = ledger::Suspend::new();
+                    out.push(jk(a));
+                    b
+                });
+                let _s = ledger::Suspend::new();
+                if let Some(k) = last {
+                    out.push(jk(k));
+                }
+                out
+            }),
+            &mut notes,
+        );
+        let less = |_: &&Key, _: &&Key| std::cmp::Ordering::Less;
+        if let Some(g) = guarded(&mut || {
+            let r = c.clone().min_by(less);
+            let _s = ledger::Suspend::new();
+            r.map(|k| jk(k)).into_iter().collect()
+        }) {
+            if g.first() != via_clone.first() {
+                notes.push(format!("min_by(always Less) = {g:?} but the first item stepping yields is {:?}", via_clone.first()));
+            }
+        }
+        if let Some(g) = guarded(&mut || {
+            let r = c.clone().max_by(less);
+            let _s = ledger::Suspend::new();
+            r.map(|k| jk(k)).into_iter().collect()
+        }) {
+            if g.first() != via_clone.last() {
+                notes.push(format!("max_by(always Less) = {g:?} but the last item stepping yields is {:?}", via_clone.last()));
+            }
+        }
+        for j in [0usize, 1, via_clone.len()] {
+            // short-circuiting consumers answering at index j: the answer, and the item that comes next
+            for what in ["find_map", "any", "all", "position", "find"] {
+                let got = guarded(&mut || {
+                    let mut cc = c.clone();
+                    let mut idx = 0usize;
+                    let mut hit = || {
+                        let h = idx == j;
+                        idx += 1;
+                        h
+                    };
+                    let found = match what {
+                        "find_map" => cc.find_map(|k| if hit() { Some(k) } else { None }).is_some(),
+                        "any" => cc.any(|_| hit()),
+                        "all" => !cc.all(|_| !hit()),
+                        "position" => cc.position(|_| hit()).is_some(),
+                        _ => cc.find(|_| hit()).is_some(),
+                    };
+                    let nx = cc.next();
+                    let _s = ledger::Suspend::new();
+                    vec![json!(found), nx.map(|k| jk(k)).unwrap_or(Value::Null)]
+                });
+                if let Some(g) = got {
+                    let want_found = j < via_clone.len();
+                    let want_next = via_clone.get(j + 1).cloned().unwrap_or(Value::Null);
+                    if g[0] != json!(want_found) || g[1] != want_next {
+                        notes.push(format!("{what}() answering at index {j}: found = {}, then next() = {}, but stepping yields {via_clone:?}", g[0], g[1]));
+                    }
+                }
+            }
+        }
+        let (p, i, a) = flags.get();
+        for m in notes {
+            ctx.note("C08", m);
+        }
+        ctx.panicked |= p;
+        ctx.injected |= i;
+        if a > 0 {
+            ctx.note("C06", format!("{a} allocator call(s) inside provided methods of a set-algebra iterator"));
+        }
+    }
     if let Some(sdbg) = it.debug_string(ctx) {
         match toks_to_items(ctx, &parse_debug(&sdbg), "key") {
             Some(v) if v == via_clone => {}
